@@ -394,8 +394,64 @@ def unit_vmap(ctx):
     ctx.canary("vmap.canary", hyps, hv, tm.lift(y[0]) * 2)
 
 
+def unit_sdmx(ctx):
+    """SDMX / SADM / fractional-Laplacian settings: the tabulated constants are taken as given, but the density dependence is
+    decidable: a UEG feature of declared power u is u(1) * rho^(u/3), and its recommended normalisation is density independent."""
+    it = ctx.interp
+    m = it.load_module(SMOD)
+    hyps = [tm.mk_lt(tm.ZERO, RHO)]
+    it.hyps = list(hyps)
+    d = {Q(1): ([0, 1, 2], [3, 2, 1, 1]), Q(2): ([1, 2], [2, 1, 1, 0]), Q(3, 2): ([0], [1, 0, 0, 0])}
+    s0, s1 = tm.var("s0"), tm.var("s1")
+    objs = [("SADM[smooth]", "SADMSettings", ["smooth"], {}), ("SADM[exact]", "SADMSettings", ["exact"], {}),
+            ("SDMX", "SDMXSettings", [[0, 1, 2]], {}), ("SDMXG", "SDMXGSettings", [[0, 1, 2], 2], {}),
+            ("SDMX1", "SDMX1Settings", [[0, 1, 2], 2], {}), ("SDMXG1", "SDMXG1Settings", [[0, 1, 2], 2, 1], {}),
+            ("SDMXFull", "SDMXFullSettings", [d], {}),
+            ("FracLapl", "FracLaplSettings", [[s0, s1], 2, 1, [(-1, 0), (0, 0)]], {"nd1": 1, "ld_dots": [(-1, 0)], "ndd": 1})]
+    for label, cname, args, kw in objs:
+        h = list(hyps) + ([tm.mk_lt(tm.const(Q(-3, 2)), s0), tm.mk_lt(tm.const(Q(-3, 2)), s1)] if cname == "FracLaplSettings" else [])
+        it.hyps = list(h)
+        obj = it.call(m.ns[cname], args, kw)
+        fq = [SMOD + ":%s.%s" % (cname, f) for f in ("ueg_vector", "get_feat_usps", "get_reasonable_normalizer")]
+        usps = list(it.call_method(obj, "get_feat_usps", []))
+        v = list(it.call_method(obj, "ueg_vector", [RHO]))
+        v1 = list(it.call_method(obj, "ueg_vector", [1]))
+        ctx.holds("%s.len(ueg)=len(usps)" % label, len(v) == len(usps) == len(v1), "%d %d" % (len(v), len(usps)), fq)
+        for i in range(min(len(v), len(usps))):
+            ctx.equal("%s.ueg(rho)[%d] = ueg(1) * rho^(usp/3)" % (label, i), h, v[i], tm.lift(v1[i]) * tm.mk_pow(RHO, tm.lift(usps[i]) / 3), fq, replay=replay_sdmx(cname, i))
+        if cname != "FracLaplSettings":
+            norms = it.call_method(obj, "get_reasonable_normalizer", [])
+            for i, nrm in enumerate(norms):
+                if nrm is None or i >= len(v) or tm.lift(v1[i]) is tm.ZERO:
+                    continue
+                # (the value itself need not be 1: SDMXFull normalises by the un-averaged constant; the property asks that the
+                #  reported value equals the computed one — proved generically in norm-ueg/* — and holds for every density)
+                ctx.equal("%s.normalised-ueg[%d] independent of rho" % (label, i), h, tm.lift(v[i]) * tm.lift(it.call_method(nrm, "get_ueg", [RHO])),
+                          tm.lift(v1[i]) * tm.lift(it.call_method(nrm, "get_ueg", [1])), fq, replay=replay_sdmx(cname, i))
+        ctx.canary("%s.canary" % label, h, v[0], tm.lift(v1[0]) * RHO ** 2)
+    ctx.assume("SDMX / SADM UEG constants at rho = 1 and the fractional-Laplacian Gamma-function closed form are taken as given; their density dependence and normalisation are checked")
+
+
+def replay_sdmx(cname, i):
+    def replay(wit):
+        import ciderpress.dft.settings as S
+        e = env_floats(wit or {})
+        rho = e.get("rho", 0.6)
+        if abs(rho - 1) < 1e-3:
+            rho = 0.6
+        args = {"SADMSettings": ["smooth"], "SDMXSettings": [[0, 1, 2]], "SDMXGSettings": [[0, 1, 2], 2], "SDMX1Settings": [[0, 1, 2], 2],
+                "SDMXG1Settings": [[0, 1, 2], 2, 1], "SDMXFullSettings": [{1.0: ([0, 1, 2], [3, 2, 1, 1]), 2.0: ([1, 2], [2, 1, 1, 0]), 1.5: ([0], [1, 0, 0, 0])}]}.get(cname)
+        if args is None:
+            return {"reproduced": None}
+        st = getattr(S, cname)(*args)
+        u = st.get_feat_usps()[i]
+        a, b = float(np.asarray(st.ueg_vector(rho))[i]), float(np.asarray(st.ueg_vector(1.0))[i]) * rho ** (u / 3.0)
+        return {"reproduced": bool(abs(a - b) > 1e-9 * (1 + abs(b))), "class": cname, "feature": i, "rho": rho, "ueg_vector(rho)": a, "ueg_vector(1)*rho^(usp/3)": b}
+    return replay
+
+
 def units():
-    u = [("ueg_expnt", unit_expnt), ("vmap", unit_vmap)]
+    u = [("ueg_expnt", unit_expnt), ("vmap", unit_vmap), ("sdmx", unit_sdmx)]
     for level in ("MGGA", "GGA"):
         for rm in ("one", "expnt"):
             u.append(("VI/%s/%s" % (level, rm), unit_vi(level, rm)))
